@@ -1,3 +1,3 @@
 import CobaVerif.Driver.Loop
--- stub: replaced when the C10 model exists
-def main : IO Unit := Coba.J.runLoop (fun _ => .error "C10 driver not implemented")
+import CobaVerif.Driver.C10
+def main : IO Unit := Coba.J.runLoop Coba.C10.Driver.handle
